@@ -287,26 +287,16 @@ impl<'a> Lexer<'a> {
     /// Moves pos to after the found `substr`. Returns Substr with traversed text if `substr` is found.
     #[allow(dead_code)]
     pub fn seek_substr(&mut self, substr: impl AsRef<[u8]>) -> Option<Substr<'a>> {
-        //
         let substr = substr.as_ref();
-        let start = self.pos;
-        let mut matched = 0;
-        loop {
-            if self.pos >= self.buf.len() {
-                return None
-            }
-            if self.buf[self.pos] == substr[matched] {
-                matched += 1;
-            } else {
-                matched = 0;
-            }
-            if matched == substr.len() {
-                break;
-            }
-            self.pos += 1;
+        let start = self.pos.min(self.buf.len());
+        if substr.is_empty() {
+            return Some(self.new_substr(start..start));
         }
-        self.pos += 1;
-        Some(self.new_substr(start..(self.pos - substr.len())))
+        // (a byte-by-byte matcher that restarts at zero after a mismatch misses
+        // occurrences that begin inside a partial match, e.g. "\nEI" in "\n\nEI")
+        let off = self.buf[start..].windows(substr.len()).position(|w| w == substr)?;
+        self.pos = start + off + substr.len();
+        Some(self.new_substr(start .. start + off))
     }
 
     //TODO perhaps seek_substr_back should, like back(), move to the first letter of the substr.
